@@ -17,7 +17,7 @@ if grep -q '^+++ b/\(src\|include\)/' $S/patch.diff; then
   /verif/tools/build_ext.sh $WT >/dev/null 2>&1 || { echo "{\"id\": \"$ID\", \"error\": \"build with patch failed\"}" > $S/verify.json; exit 1; }
 fi
 (cd $WT && timeout 900 /venv/bin/python _seed/demo.py > $WT/_seed/out_patched.txt 2>&1); RC_PATCHED=$?
-SUITE=$(cd $WT && /venv/bin/python -m pytest -q -p no:cacheprovider --timeout=900 -x 2>&1 | tail -1)
+SUITE=$(cd $WT && /venv/bin/python -m pytest -q -p no:cacheprovider --timeout=900 -x 2>&1 | grep -E "^[0-9]+ (passed|failed)|passed in|failed in|error" | tail -1)
 CLEAN_TAIL=$(tail -1 $WT/_seed/out_clean.txt | cut -c1-200 | tr '"\\' "' ")
 PATCHED_TAIL=$(grep -m1 -i "violat\|fail\|error\|mismatch" $WT/_seed/out_patched.txt | cut -c1-200 | tr '"\\' "' ")
 cat > $S/verify.json <<EOT
